@@ -1,7 +1,116 @@
-/- Line-protocol engine for C06 — stub, to be filled in. -/
-import CV.Proto
+/-
+Line-protocol engine for C06 (blocking-query contract). Writes are the lines of the shared store
+engine (CV.Engine.StoreCore: kv / sc / sd / reg / dereg / reap / pqs / pqd / txn, `reset`, `dump`);
+in addition:
+
+  q  <query…>            evaluate a query in the current state:  idx=<raw index> rep=<reported> <result>
+  qa <fired> <query…>    the same, plus the watch verdict of the LAST write: the Go harness passes
+                         whether the WatchSet it built before the write has a closed channel after it
+                         (<fired> = 0|1); the model answers  w=ok  unless its own footprint says the
+                         watch must have fired and Go's did not (w=missed). `c=<0|1>` tells whether the
+                         model's footprint changed (printed only in the `w=missed` case).
+  query tokens:  kvget k | kvlist p | kvkeys p sep | sessget id | sesslist | nodesess node | nodes |
+                 services | servicesjoin | svcnodes name | connectnodes name | tagnodes name tag |
+                 nodesvcs node | nodesvclist node | nodechecks node | svcchecks name | checksinstate st |
+                 csn name | csnconnect name | csntag name tag | pqget id | pqlist
+
+Every answer is computed by `CV.Store.Query.run` / `Query.fired`, the functions the theorems of
+CV.Props.C06 are about.
+-/
+import CV.Engine.StoreCore
+import CV.Store.Query
 namespace CV.Engine.C06
-open CV
-def step (_ : Unit) (_toks : List String) : Unit × String := ((), "bad-op")
-def engine : Engine := { State := Unit, init := (), step := step }
+open CV CV.Store CV.Engine.StoreCore
+
+structure St where
+  prev : Store.State := {}
+  cur : Store.State := {}
+
+def bar (l : List String) : String := "|".intercalate l
+def tilde (l : List String) : String := if l.isEmpty then "-" else "~".intercalate l
+
+def showSvcNode (x : SvcNode) : String :=
+  match x.node with
+  | some n => showSvc x.svc ++ ";" ++ encS n.id ++ ";" ++ encS n.addr
+  | none => showSvc x.svc ++ ";?"
+
+/-- `ServiceNode.ToNodeService()`: the instance without the node-name spelling of its row -/
+def showNodeSvc (v : Svc) : String := semi [encS v.id, encS v.name, encNat v.port, encNat v.create, encNat v.modify]
+
+def showCSN (x : CSN) : String := bar [showNode x.node, showNodeSvc x.svc, tilde (x.checks.map showChk)]
+
+def showOpt {α : Type} (f : α → String) : Option α → String
+  | some a => f a
+  | none => "-"
+
+def showQRes : QRes → String
+  | .err e => "err:" ++ e.name
+  | .kv o => showOpt showKV o
+  | .kvs l => encList (l.map showKV)
+  | .keys l => encList (l.map encB)
+  | .sess o => showOpt showSess o
+  | .sesss l => encList (l.map showSess)
+  | .nodes l => encList (l.map showNode)
+  | .svcs l => encList (l.map showSvc)
+  | .svcNodes l => encList (l.map showSvcNode)
+  | .nodeSvcs none => "-"
+  | .nodeSvcs (some (n, l)) => bar [showNode n, tilde (l.map showNodeSvc)]
+  | .chks l => encList (l.map showChk)
+  | .csns l => encList (l.map showCSN)
+  | .pq o => showOpt showPQ o
+  | .pqs l => encList (l.map showPQ)
+
+def parseQuery : List String → Option Query
+  | ["kvget", k] => do pure (.kvGet (← decB k))
+  | ["kvlist", p] => do pure (.kvList (← decB p))
+  | ["kvkeys", p, sep] => do pure (.kvKeys (← decB p) (← decB sep))
+  | ["sessget", id] => do pure (.sessGet (← decS id))
+  | ["sesslist"] => some .sessList
+  | ["nodesess", n] => do pure (.nodeSessions (← decS n))
+  | ["nodes"] => some .nodes
+  | ["services"] => some .services
+  | ["servicesjoin"] => some .servicesJoin
+  | ["svcnodes", n] => do pure (.serviceNodes (← decS n))
+  | ["connectnodes", n] => do pure (.connectNodes (← decS n))
+  | ["tagnodes", n, t] => do pure (.tagNodes (← decS n) (← decS t))
+  | ["nodesvcs", n] => do pure (.nodeServices (← decS n))
+  | ["nodesvclist", n] => do pure (.nodeServiceList (← decS n))
+  | ["nodechecks", n] => do pure (.nodeChecks (← decS n))
+  | ["svcchecks", n] => do pure (.serviceChecks (← decS n))
+  | ["checksinstate", st] => do pure (.checksInState (← decS st))
+  | ["csn", n] => do pure (.csn (← decS n))
+  | ["csnconnect", n] => do pure (.csnConnect (← decS n))
+  | ["csntag", n, t] => do pure (.csnTag (← decS n) (← decS t))
+  | ["pqget", id] => do pure (.pqGet (← decS id))
+  | ["pqlist"] => some .pqList
+  | _ => none
+
+def answer (s : Store.State) (q : Query) : String :=
+  let r := q.run s
+  s!"idx={r.1} rep={reported r.1} {showQRes r.2}"
+
+def step (st : St) (toks : List String) : St × String :=
+  match toks with
+  | ["reset"] => ({}, "ok")
+  | ["dump"] => (st, dump st.cur)
+  | "q" :: rest =>
+    match parseQuery rest with
+    | some q => (st, answer st.cur q)
+    | none => (st, "bad-op")
+  | "qa" :: fired :: rest =>
+    match parseQuery rest, decBool fired with
+    | some q, some f =>
+      let c := q.fired st.prev st.cur
+      let w := if c && !f then " w=missed c=1" else " w=ok"
+      (st, answer st.cur q ++ w)
+    | _, _ => (st, "bad-op")
+  | _ =>
+    match parseCmd toks with
+    | some (i, c) =>
+      let (s', r) := apply st.cur i c
+      ({ prev := st.cur, cur := s' }, showResult r)
+    | none => (st, "bad-op")
+
+def engine : Engine := { State := St, init := {}, step := step }
+
 end CV.Engine.C06
